@@ -27,7 +27,9 @@ EXPLANATION = (
     "T-1..1, each exactly once, on ReverseBrownian(ctx.bm); the state block is reset to ys[i-1] and the cotangent "
     "grad_ys[i-1] is added after each piece; grad_ys[-1] seeds the sweep; so every output cotangent is injected exactly "
     "once. R09.5: the default adjoint method is accepted by its solver for every forward configuration (shared with "
-    "C19), and adjoint_params are filtered by requires_grad. Not decided: convergence of adjoint gradients as dt -> 0."
+    "C19), and adjoint_params are filtered by requires_grad. R11.1 / R11.4 (shared with C11): the adjoint vector fields "
+    "integrated by the backward solve are the prescribed ones in every cell. Not decided: convergence of adjoint gradients "
+    "as dt -> 0."
 )
 
 
@@ -345,3 +347,8 @@ def run(ctx):
     ctx.guard(r09_2)
     ctx.guard(r09_4)
     ctx.guard(r09_5)
+    # "gradients converge to the true gradient": the adjoint vector fields integrated by the backward solve are the
+    # prescribed ones in every (sde_type, noise_type) cell (rules of C11)
+    from . import c11
+    ctx.guard(c11.r11_1)
+    ctx.guard(c11.r11_4)
